@@ -82,6 +82,9 @@ func (v *Verifier) isShared(f string) bool {
 				}
 				for _, m := range tc.Monitors {
 					for fld := range m.Guards {
+						if strings.HasPrefix(fld, "#") {
+							continue
+						}
 						if mt, ok := fieldTypeAt(root, []string{fld}).Underlying().(*types.Map); ok {
 							v.sharedMaps["M$"+typeName(mt.Key())+"$"+typeName(mt.Elem())+"$"] = true
 						}
